@@ -203,6 +203,13 @@ Section Lockset.
       intros h' Hh. apply in_or_app. right. auto.
   Qed.
 
+  Lemma wl_ev h e l : wl h (GEv e) = Some l ->
+    disciplined h [(false, e)] /\ In (ONorm, held_after h [(false, e)]) l.
+  Proof.
+    destruct e as [lc| | | | | |]; [destruct lc|..]; destruct h; cbn; intros W; try discriminate;
+      inversion W; subst; cbn; repeat split; auto; try discriminate.
+  Qed.
+
   Theorem wl_sound : forall s tr o,
     exec (lookup tbl) env0 false s tr o -> forall h l, wl h s = Some l ->
     disciplined h tr /\ In (o, held_after h tr) l.
@@ -227,20 +234,13 @@ Section Lockset.
       destruct (wl h b) as [lb|]; [|discriminate]. destruct (forallb _ lb); [|discriminate]. inversion W; subst.
       cbn. split; [exact I|left; reflexivity].
     - (* loop next *)
-      pose proof W as W0.
+      assert (W0 : wl h (GLoop b) = Some l) by exact W.
       destruct (wl h b) as [lb|] eqn:Wb; [|discriminate]. destruct (forallb _ lb) eqn:Einv; [|discriminate].
       destruct (IHexec1 eq_refl h lb Wb) as [D1 M1].
       rewrite forallb_forall in Einv. specialize (Einv _ M1). cbn [fst snd] in Einv.
       assert (Hh : held_after h tr1 = h).
       { destruct H0 as [-> | ->]; cbn [outc_eqb orb] in Einv; apply eqb_prop in Einv; exact Einv. }
-      assert (W' : wl h (GLoop b) = Some l) by (cbn [wl]; rewrite Wb; exact W0 || idtac).
-      destruct (IHexec2 eq_refl h l) as [D2 M2].
-      { cbn [wl]. rewrite Wb. destruct (forallb (fun x => outc_eqb (fst x) ORet || Bool.eqb (snd x) h) lb) eqn:E2; [exact W|].
-        exfalso. apply Bool.not_true_iff_false in E2. apply E2. apply forallb_forall. intros x Hx.
-        assert (X : forallb (fun x => outc_eqb (fst x) ORet || Bool.eqb (snd x) h) lb = true).
-        { destruct (forallb (fun x => outc_eqb (fst x) ORet || Bool.eqb (snd x) h) lb) eqn:E3; [reflexivity|].
-          rewrite E3 in W. discriminate. }
-        rewrite forallb_forall in X. exact (X x Hx). }
+      destruct (IHexec2 eq_refl h l W0) as [D2 M2].
       rewrite held_after_app, Hh. split; [apply disciplined_app; [exact D1|rewrite Hh; exact D2]|exact M2].
     - (* loop break *)
       destruct (wl h b) as [lb|] eqn:Wb; [|discriminate]. destruct (forallb _ lb) eqn:Einv; [|discriminate]. inversion W; subst.
@@ -260,15 +260,7 @@ Section Lockset.
       rewrite forallb_forall in Aall. specialize (Aall _ M2). cbn [fst] in Aall. destruct o2; try discriminate.
       rewrite held_after_app. split; [apply disciplined_app; assumption|apply Sub; exact M2].
     - (* event *)
-      destruct e; cbn [held_after disciplined is_content_write andb] in *;
-        try (inversion W; subst; split; [split; [discriminate|exact I]|left; reflexivity]).
-      + (* EWrite l *)
-        destruct (is_content_write (EWrite l0) && negb h) eqn:Eg; [discriminate|]. inversion W; subst.
-        split; [|destruct l0; left; reflexivity].
-        destruct l0; cbn [is_content_write] in *; (split; [|exact I]); intros Hc; try discriminate;
-          destruct h; [reflexivity|discriminate|reflexivity|discriminate].
-      + destruct h; [discriminate|]. inversion W; subst. split; [split; [reflexivity|exact I]|left; reflexivity].
-      + destruct h; [|discriminate]. inversion W; subst. split; [split; [reflexivity|exact I]|left; reflexivity].
+      apply wl_ev. exact W.
     - (* call, same object *)
       destruct (lclaimed f h) eqn:C; [|discriminate]. inversion W; subst.
       pose proof (lclaimed_body f h body C H) as B. unfold body_balanced in B.
@@ -320,31 +312,35 @@ Fixpoint lrefine (fuel : nat) (tbl : list (N * gstmt)) (env0 : genv) (U : list (
    inside stack.lock every store to the field comes after Mutex.Lock, inside
    stack.unlock every store comes before Mutex.Unlock (single bodies; callees
    must be quiet) *)
-Fixpoint quiet (fuel : nat) (tbl : list (N * gstmt)) (s : gstmt) : bool :=
+Fixpoint quiet1 (callq : N -> bool) (s : gstmt) : bool :=
   match s with
-  | GSeq a b | GFinally a b => quiet fuel tbl a && quiet fuel tbl b
-  | GIf _ t e => quiet fuel tbl t && quiet fuel tbl e
-  | GLoop b => quiet fuel tbl b
+  | GSeq a b | GFinally a b => quiet1 callq a && quiet1 callq b
+  | GIf _ t e => quiet1 callq t && quiet1 callq e
+  | GLoop b => quiet1 callq b
   | GEv (EWrite LCfgLdr) | GEv EMLock | GEv EMUnlock => false
-  | GCall f | GCallOther f =>
-      match fuel with
-      | O => false
-      | S k => match lookup tbl f with Some b => quiet k tbl b | None => false end
-      end
+  | GCall f | GCallOther f => callq f
   | _ => true
   end.
 
-(* seen = Mutex.Lock has definitely happened (must) *)
+Fixpoint quietf (fuel : nat) (tbl : list (N * gstmt)) (f : N) : bool :=
+  match fuel with
+  | O => false
+  | S k => match lookup tbl f with Some b => quiet1 (quietf k tbl) b | None => false end
+  end.
+
+(* seen = Mutex.Lock has definitely happened (must).  Loops and finally
+   blocks are treated conservatively (lock/unlock contain neither). *)
 Fixpoint ldr_after_lock (tbl : list (N * gstmt)) (seen : bool) (s : gstmt) : option bool :=
   match s with
   | GSeq a b => match ldr_after_lock tbl seen a with Some s1 => ldr_after_lock tbl s1 b | None => None end
   | GIf _ t e => match ldr_after_lock tbl seen t, ldr_after_lock tbl seen e with
                  | Some x, Some y => Some (x && y) | _, _ => None end
   | GLoop b => match ldr_after_lock tbl seen b with Some _ => Some seen | None => None end
-  | GFinally a b => match ldr_after_lock tbl seen a with Some s1 => ldr_after_lock tbl s1 b | None => None end
+  | GFinally a b => match ldr_after_lock tbl seen a, ldr_after_lock tbl seen b with
+                    | Some _, Some _ => Some seen | _, _ => None end
   | GEv EMLock => Some true
   | GEv (EWrite LCfgLdr) => if seen then Some seen else None
-  | GCall f | GCallOther f => match lookup tbl f with Some b => if quiet 4 tbl b then Some seen else None | None => None end
+  | GCall f | GCallOther f => if quietf 4 tbl f then Some seen else None
   | _ => Some seen
   end.
 
@@ -354,10 +350,212 @@ Fixpoint ldr_before_unlock (tbl : list (N * gstmt)) (gone : bool) (s : gstmt) : 
   | GSeq a b => match ldr_before_unlock tbl gone a with Some s1 => ldr_before_unlock tbl s1 b | None => None end
   | GIf _ t e => match ldr_before_unlock tbl gone t, ldr_before_unlock tbl gone e with
                  | Some x, Some y => Some (x || y) | _, _ => None end
-  | GLoop b => match ldr_before_unlock tbl gone b with Some x => Some (gone || x) | None => None end
-  | GFinally a b => match ldr_before_unlock tbl gone a with Some s1 => ldr_before_unlock tbl s1 b | None => None end
+  | GLoop b => match ldr_before_unlock tbl true b with Some _ => Some true | None => None end
+  | GFinally a b => match ldr_before_unlock tbl gone a, ldr_before_unlock tbl true b with
+                    | Some _, Some _ => Some true | _, _ => None end
   | GEv EMUnlock => Some true
   | GEv (EWrite LCfgLdr) => if gone then None else Some gone
-  | GCall f | GCallOther f => match lookup tbl f with Some b => if quiet 4 tbl b then Some gone else None | None => None end
+  | GCall f | GCallOther f => if quietf 4 tbl f then Some gone else None
   | _ => Some gone
   end.
+
+(* ---- what the two analyses mean on traces ---- *)
+Definition is_ldr_write (e : ev) : bool := match e with EWrite LCfgLdr => true | _ => false end.
+Definition is_mlock (e : ev) : bool := match e with EMLock => true | _ => false end.
+Definition is_munlock (e : ev) : bool := match e with EMUnlock => true | _ => false end.
+
+Fixpoint seen_after (mark : ev -> bool) (st : bool) (tr : list (bool * ev)) : bool :=
+  match tr with [] => st | (_, e) :: t => seen_after mark (st || mark e) t end.
+
+(* every store to the bookkeeping field happens in a state `want` *)
+Fixpoint ldr_ok (mark : ev -> bool) (want : bool) (st : bool) (tr : list (bool * ev)) : Prop :=
+  match tr with
+  | [] => True
+  | (_, e) :: t => (is_ldr_write e = true -> st = want) /\ ldr_ok mark want (st || mark e) t
+  end.
+
+Definition clean (tr : list (bool * ev)) : Prop :=
+  forall x, In x tr -> is_ldr_write (snd x) = false /\ is_mlock (snd x) = false /\ is_munlock (snd x) = false.
+
+Lemma seen_after_app mark st a b : seen_after mark st (a ++ b) = seen_after mark (seen_after mark st a) b.
+Proof. revert st; induction a as [|[tg e] a IH]; intros st; cbn [app seen_after]; [reflexivity|apply IH]. Qed.
+
+Lemma seen_after_true mark tr : seen_after mark true tr = true.
+Proof. induction tr as [|[tg e] t IH]; cbn [seen_after orb]; auto. Qed.
+
+Lemma seen_after_ge mark st tr : st = true -> seen_after mark st tr = true.
+Proof. intros ->. apply seen_after_true. Qed.
+
+Lemma ldr_ok_app mark want st a b :
+  ldr_ok mark want st a -> ldr_ok mark want (seen_after mark st a) b -> ldr_ok mark want st (a ++ b).
+Proof.
+  revert st; induction a as [|[tg e] a IH]; intros st Ha Hb; cbn [app seen_after ldr_ok] in *; [exact Hb|].
+  destruct Ha as [H1 H2]. split; [exact H1|apply IH; assumption].
+Qed.
+
+(* must-analysis: a larger state is at least as good *)
+Lemma ldr_ok_true_mono mark st st' tr : (st = true -> st' = true) -> ldr_ok mark true st tr -> ldr_ok mark true st' tr.
+Proof.
+  revert st st'; induction tr as [|[tg e] t IH]; intros st st' Hm H; cbn [ldr_ok] in *; [exact I|].
+  destruct H as [H1 H2]. split; [intros Hw; apply Hm; auto|].
+  apply (IH (st || mark e) (st' || mark e)); [|exact H2].
+  intros Ho. apply orb_true_iff in Ho as [Ho| ->]; [rewrite (Hm Ho); reflexivity|apply orb_true_r].
+Qed.
+
+(* may-analysis: a smaller state is at least as good *)
+Lemma ldr_ok_false_mono mark st st' tr : (st' = true -> st = true) -> ldr_ok mark false st tr -> ldr_ok mark false st' tr.
+Proof.
+  revert st st'; induction tr as [|[tg e] t IH]; intros st st' Hm H; cbn [ldr_ok] in *; [exact I|].
+  destruct H as [H1 H2]. split.
+  - intros Hw. specialize (H1 Hw). destruct st'; [rewrite (Hm eq_refl) in H1; discriminate|reflexivity].
+  - apply (IH (st || mark e) (st' || mark e)); [|exact H2].
+    intros Ho. apply orb_true_iff in Ho as [Ho| ->]; [rewrite (Hm Ho); reflexivity|apply orb_true_r].
+Qed.
+
+Lemma clean_ok mark want st tr : (mark = is_mlock \/ mark = is_munlock) -> clean tr ->
+  ldr_ok mark want st tr /\ seen_after mark st tr = st.
+Proof.
+  intros Hmk. revert st; induction tr as [|[tg e] t IH]; intros st Hc; cbn [ldr_ok seen_after]; [auto|].
+  destruct (Hc (tg, e) (or_introl eq_refl)) as (C1 & C2 & C3). cbn [snd] in *.
+  assert (mark e = false) as -> by (destruct Hmk as [-> | ->]; assumption).
+  rewrite orb_false_r. destruct (IH st) as [I1 I2]; [intros x Hx; apply Hc; right; exact Hx|].
+  split; [split; [rewrite C1; discriminate|exact I1]|exact I2].
+Qed.
+
+Lemma clean_app a b : clean a -> clean b -> clean (a ++ b).
+Proof. intros Ha Hb x Hx. apply in_app_or in Hx as [Hx|Hx]; auto. Qed.
+
+Section Order.
+  Variable tbl : list (N * gstmt).
+  Variable env0 : genv.
+
+  Lemma quiet1_clean callq :
+    (forall f body top tr o, callq f = true -> lookup tbl f = Some body ->
+                             exec (lookup tbl) env0 top body tr o -> clean tr) ->
+    forall top s tr o, exec (lookup tbl) env0 top s tr o -> quiet1 callq s = true -> clean tr.
+  Proof.
+    assert (Hnil : clean []) by (intros y []).
+    intros Hc top s tr o H. induction H; intros Q; cbn [quiet1] in Q;
+      try (apply andb_true_iff in Q as [Q1 Q2]); try exact Hnil.
+    - auto.
+    - apply clean_app; auto.
+    - auto.
+    - auto.
+    - apply clean_app; auto.
+    - auto.
+    - auto.
+    - apply clean_app; auto.
+    - destruct e as [[]| | | | | |]; try discriminate; intros y [<-|[]]; cbn; auto.
+    - eapply Hc; eauto.
+    - eapply Hc; eauto.
+  Qed.
+
+  Lemma quietf_clean fuel : forall f body top tr o,
+    quietf fuel tbl f = true -> lookup tbl f = Some body -> exec (lookup tbl) env0 top body tr o -> clean tr.
+  Proof.
+    induction fuel as [|k IH]; intros f body top tr o Q L X; cbn [quietf] in Q; [discriminate|].
+    rewrite L in Q. eapply quiet1_clean; [|exact X|exact Q]. intros; eapply IH; eauto.
+  Qed.
+
+  Theorem ldr_after_lock_sound top s tr o :
+    exec (lookup tbl) env0 top s tr o -> forall st r, ldr_after_lock tbl st s = Some r ->
+    ldr_ok is_mlock true st tr /\ (o = ONorm -> r = true -> seen_after is_mlock st tr = true).
+  Proof.
+    intros H. induction H; intros st r A; cbn [ldr_after_lock] in A.
+    - inversion A; subst. cbn. auto.
+    - destruct (ldr_after_lock tbl st a) as [s1|] eqn:Ea; [|discriminate].
+      destruct (IHexec st s1 Ea) as [I1 _]. split; [exact I1|intros; contradiction].
+    - destruct (ldr_after_lock tbl st a) as [s1|] eqn:Ea; [|discriminate].
+      destruct (IHexec1 st s1 Ea) as [I1 J1]. destruct (IHexec2 s1 r A) as [I2 J2].
+      rewrite seen_after_app. split.
+      + apply ldr_ok_app; [exact I1|]. eapply ldr_ok_true_mono; [|exact I2]. intros E. apply J1; auto.
+      + intros Eo Er. destruct s1.
+        * rewrite (J1 eq_refl eq_refl). apply seen_after_true.
+        * specialize (J2 Eo Er). clear -J2. revert J2. generalize (seen_after is_mlock st tr1) as z.
+          intros z. destruct z; [intros _; apply seen_after_true|auto].
+    - destruct (ldr_after_lock tbl st t) as [x|] eqn:Et; [|discriminate].
+      destruct (ldr_after_lock tbl st e) as [y|]; [|discriminate]. inversion A; subst.
+      destruct (IHexec st x Et) as [I1 J1]. split; [exact I1|]. intros Eo Er. apply andb_true_iff in Er as [Ex _]. auto.
+    - destruct (ldr_after_lock tbl st t) as [x|]; [|discriminate].
+      destruct (ldr_after_lock tbl st e) as [y|] eqn:Ee; [|discriminate]. inversion A; subst.
+      destruct (IHexec st y Ee) as [I1 J1]. split; [exact I1|]. intros Eo Er. apply andb_true_iff in Er as [_ Ey]. auto.
+    - destruct (ldr_after_lock tbl st b) as [x|]; [|discriminate]. inversion A; subst. cbn. auto.
+    - assert (A0 : ldr_after_lock tbl st (GLoop b) = Some r) by exact A.
+      destruct (ldr_after_lock tbl st b) as [x|] eqn:Eb; [|discriminate]. inversion A; subst r.
+      destruct (IHexec1 st x Eb) as [I1 _]. rewrite seen_after_app.
+      assert (A1 : ldr_after_lock tbl (seen_after is_mlock st tr1) (GLoop b) = Some (seen_after is_mlock st tr1) \/ True) by auto.
+      destruct (IHexec2 st st A0) as [I2 _]. split.
+      + apply ldr_ok_app; [exact I1|]. eapply ldr_ok_true_mono; [|exact I2].
+        intros ->. apply seen_after_true.
+      + intros _ ->. rewrite seen_after_true. apply seen_after_true.
+    - destruct (ldr_after_lock tbl st b) as [x|] eqn:Eb; [|discriminate]. inversion A; subst r.
+      destruct (IHexec st x Eb) as [I1 _]. split; [exact I1|]. intros _ ->. apply seen_after_true.
+    - destruct (ldr_after_lock tbl st b) as [x|] eqn:Eb; [|discriminate]. inversion A; subst r.
+      destruct (IHexec st x Eb) as [I1 _]. split; [exact I1|]. intros; discriminate.
+    - inversion A; subst. cbn. split; auto; intros; discriminate.
+    - inversion A; subst. cbn. split; auto; intros; discriminate.
+    - inversion A; subst. cbn. split; auto; intros; discriminate.
+    - destruct (ldr_after_lock tbl st b) as [x|] eqn:Eb; [|discriminate].
+      destruct (ldr_after_lock tbl st fin) as [y|] eqn:Ef; [|discriminate]. inversion A; subst r.
+      destruct (IHexec1 st x Eb) as [I1 _]. destruct (IHexec2 st y Ef) as [I2 _]. rewrite seen_after_app. split.
+      + apply ldr_ok_app; [exact I1|]. eapply ldr_ok_true_mono; [|exact I2]. intros ->. apply seen_after_true.
+      + intros _ ->. rewrite seen_after_true. apply seen_after_true.
+    - revert A. destruct e as [[]| | | | | |]; destruct st; cbn; intros A; try discriminate;
+        inversion A; subst; cbn; repeat split; auto; try discriminate.
+    - destruct (quietf 4 tbl f) eqn:Q; [|discriminate]. inversion A; subst r.
+      pose proof (quietf_clean _ _ _ _ _ _ Q H H0) as C.
+      destruct (clean_ok is_mlock true st tr (or_introl eq_refl) C) as [K1 K2]. split; [exact K1|]. intros _ ->. apply seen_after_true.
+    - destruct (quietf 4 tbl f) eqn:Q; [|discriminate]. inversion A; subst r.
+      pose proof (quietf_clean _ _ _ _ _ _ Q H H0) as C.
+      destruct (clean_ok is_mlock true st tr (or_introl eq_refl) C) as [K1 K2]. split; [exact K1|]. intros _ ->. apply seen_after_true.
+  Qed.
+
+  Theorem ldr_before_unlock_sound top s tr o :
+    exec (lookup tbl) env0 top s tr o -> forall st r, ldr_before_unlock tbl st s = Some r ->
+    ldr_ok is_munlock false st tr /\ (o = ONorm -> seen_after is_munlock st tr = true -> r = true).
+  Proof.
+    intros H. induction H; intros st r A; cbn [ldr_before_unlock] in A.
+    - inversion A; subst. cbn. auto.
+    - destruct (ldr_before_unlock tbl st a) as [s1|] eqn:Ea; [|discriminate].
+      destruct (IHexec st s1 Ea) as [I1 _]. split; [exact I1|intros; contradiction].
+    - destruct (ldr_before_unlock tbl st a) as [s1|] eqn:Ea; [|discriminate].
+      destruct (IHexec1 st s1 Ea) as [I1 J1]. destruct (IHexec2 s1 r A) as [I2 J2].
+      rewrite seen_after_app. split.
+      + apply ldr_ok_app; [exact I1|]. eapply ldr_ok_false_mono; [|exact I2]. intros E. apply J1; auto.
+      + intros Eo Es. apply J2; [exact Eo|].
+        destruct (seen_after is_munlock st tr1) eqn:E1; [rewrite (J1 eq_refl eq_refl); apply seen_after_true|].
+        destruct s1; [apply seen_after_true|exact Es].
+    - destruct (ldr_before_unlock tbl st t) as [x|] eqn:Et; [|discriminate].
+      destruct (ldr_before_unlock tbl st e) as [y|]; [|discriminate]. inversion A; subst.
+      destruct (IHexec st x Et) as [I1 J1]. split; [exact I1|]. intros Eo Es. rewrite (J1 Eo Es). reflexivity.
+    - destruct (ldr_before_unlock tbl st t) as [x|]; [|discriminate].
+      destruct (ldr_before_unlock tbl st e) as [y|] eqn:Ee; [|discriminate]. inversion A; subst.
+      destruct (IHexec st y Ee) as [I1 J1]. split; [exact I1|]. intros Eo Es. rewrite (J1 Eo Es). apply orb_true_r.
+    - destruct (ldr_before_unlock tbl true b) as [x|]; [|discriminate]. inversion A; subst. cbn. auto.
+    - assert (A0 : ldr_before_unlock tbl st (GLoop b) = Some r) by exact A.
+      destruct (ldr_before_unlock tbl true b) as [x|] eqn:Eb; [|discriminate]. inversion A; subst r.
+      destruct (IHexec1 true x Eb) as [I1 _]. rewrite seen_after_app.
+      assert (A1 : ldr_before_unlock tbl true (GLoop b) = Some true) by (cbn [ldr_before_unlock]; rewrite Eb; reflexivity).
+      destruct (IHexec2 true true A1) as [I2 _]. split; [|auto].
+      apply ldr_ok_app; (eapply ldr_ok_false_mono; [|eassumption]); auto.
+    - destruct (ldr_before_unlock tbl true b) as [x|] eqn:Eb; [|discriminate]. inversion A; subst r.
+      destruct (IHexec true x Eb) as [I1 _]. split; [|auto]. eapply ldr_ok_false_mono; [|exact I1]. auto.
+    - destruct (ldr_before_unlock tbl true b) as [x|] eqn:Eb; [|discriminate]. inversion A; subst r.
+      destruct (IHexec true x Eb) as [I1 _]. split; [|auto]. eapply ldr_ok_false_mono; [|exact I1]. auto.
+    - inversion A; subst. cbn. split; auto; intros; discriminate.
+    - inversion A; subst. cbn. split; auto; intros; discriminate.
+    - inversion A; subst. cbn. split; auto; intros; discriminate.
+    - destruct (ldr_before_unlock tbl st b) as [x|] eqn:Eb; [|discriminate].
+      destruct (ldr_before_unlock tbl true fin) as [y|] eqn:Ef; [|discriminate]. inversion A; subst r.
+      destruct (IHexec1 st x Eb) as [I1 _]. destruct (IHexec2 true y Ef) as [I2 _]. rewrite seen_after_app. split; [|auto].
+      apply ldr_ok_app; [exact I1|]. eapply ldr_ok_false_mono; [|exact I2]. auto.
+    - revert A. destruct e as [[]| | | | | |]; destruct st; cbn; intros A; try discriminate;
+        inversion A; subst; cbn; repeat split; auto; try discriminate.
+    - destruct (quietf 4 tbl f) eqn:Q; [|discriminate]. inversion A; subst r.
+      pose proof (quietf_clean _ _ _ _ _ _ Q H H0) as C.
+      destruct (clean_ok is_munlock false st tr (or_intror eq_refl) C) as [K1 K2]. split; [exact K1|]. rewrite K2. auto.
+    - destruct (quietf 4 tbl f) eqn:Q; [|discriminate]. inversion A; subst r.
+      pose proof (quietf_clean _ _ _ _ _ _ Q H H0) as C.
+      destruct (clean_ok is_munlock false st tr (or_intror eq_refl) C) as [K1 K2]. split; [exact K1|]. rewrite K2. auto.
+  Qed.
+End Order.
